@@ -58,19 +58,20 @@ def run(ctx):
         if relpath(f.file) == "lib/Commands/BuildSystemCommand.cpp":
             r.exempt(site, "parse-only dummy command of `llbuild buildsystem parse`: never built", f)
             continue
-        # shape (a): if (failed || propagated || cancelled) return makeFailedInput(); dominates every other return
-        first_if = None
-        for n in f.nodes:
-            if n.get("k") == "if":
-                names = set(pred_name(d, vparam) for d in disjuncts(n.child("c")))
-                if FAIL_PREDS <= names and "makeFailedInput" in expr_str(n.child("then")):
-                    first_if = n
+        # shape (a): whatever else is tested and in whatever form, a value for which one of the three failure predicates holds can only be
+        # answered with makeFailedInput() — every `return` reachable with that predicate true (cfg.returns_under) is that one
+        if f.calls("makeFailedInput") and not [c for c in f.calls() if c.get("qualified") and (c.get("fn") or "").endswith("::getResultForOutput")]:
+            bad = None
+            for pred in sorted(FAIL_PREDS):
+                env = {"%s.%s()" % (vparam, pred): True}
+                for x in cfg.returns_under(f, env):
+                    if "makeFailedInput" not in expr_str(x):
+                        bad = (pred, x)
+                        break
+                if bad:
                     break
-        if first_if is not None:
-            cp = cfg.any_pos(f, first_if.child("c"))
-            others = [x for x in rets if not any(y is x for y in first_if.walk())]
-            ok = all(cfg.dominated_by(f, cfg.pos_of(f, x), lambda p, e: p == cp)[0] for x in others)
-            r.check(ok, site, "failed/propagated/cancelled -> FailedInput first", "a result is returned before the failure test", f, first_if)
+            r.check(bad is None, site, "failed/propagated/cancelled -> FailedInput first",
+                    "a value with %s() can be answered with `%s`" % (bad[0], expr_str(bad[1])[:60]) if bad else "", f, bad[1] if bad else None)
             continue
         # shape (b): delegation to the inherited implementation, with only listed exceptions before it
         deleg = [c for c in f.calls() if c.get("qualified") and (c.get("fn") or "").endswith("::getResultForOutput")]
@@ -204,17 +205,19 @@ def run(ctx):
             continue
         vparam = [p["n"] for p in f.params if "BuildValue" in f.db_types[p["t"]]]
         vp = vparam[0] if vparam else "value"
-        bf = BranchFacts(f, kill="assign")
         fs = [c for c in f.calls() if (c.get("fn") or "").split("::")[-1] in ("getFileInfo", "getLinkInfo", "getFileSystem")]
-        trues = [x for x in rets if not (core(x.child("e")).get("k") == "bool" and core(x.child("e"))["v"] is False)]
-        ok = bool(trues) and all(any(p and a == "%s.isSuccessfulCommand()" % vp for a, p in (bf.at_node(x) or frozenset())) for x in trues + fs)
+        # with a stored value that is not a successful command the only possible answer is false, and no file-system read is reachable
+        # (walk of the body with that predicate fixed; form-independent)
+        env = {"%s.isSuccessfulCommand()" % vp: False}
+        got = cfg.possible_returns(f, env)
+        fsp = set(cfg.pos_of(f, c) for c in fs)
+        w = cfg.reach_under(f, env, lambda p, e: p in fsp, lambda p, e: False) if fsp else None
+        ok = got == {False} and w is None
         r.check(ok, site, "%d file-system reads, all after the success test" % len(fs), "the stored value can be accepted (or the file system consulted) without value.isSuccessfulCommand()", f)
     for t in ("ProducedNodeTask", "ProducedDirectoryNodeTask"):
         f = prog.fn(t + "::isResultValid")
-        bf = BranchFacts(f, kill="assign")
-        trues = [x for x in f.nodes if x.get("k") == "return" and core(x.child("e")).get("v") is True]
-        ok = bool(trues) and all(any((not p) and a == "value.isFailedInput()" for a, p in (bf.at_node(x) or frozenset())) and
-                                 any((not p) and a == "value.isMissingInput()" for a, p in (bf.at_node(x) or frozenset())) for x in trues)
+        vp = f.params[-1]["n"]
+        ok = all(cfg.possible_returns(f, {"%s.%s()" % (vp, pred): True}) == {False} for pred in ("isFailedInput", "isMissingInput"))
         r.check(ok, "%s::isResultValid" % t, "", "a failed or missing input can be considered up to date", f)
 
     r = rep.rule("R-FAIL-REPORT", "a failed command result reaches hadCommandFailure before the task completes; the frontend counts it, resets the count only at build start, answers build() from the counts, and the command line tool turns a failed build into a non-zero exit", floor=6)
@@ -223,12 +226,42 @@ def run(ctx):
     for l in prog.lambdas_of(ct):
         hf = l.calls("hadCommandFailure")
         comp = l.calls("TaskInterface::complete")
-        if hf and comp and any("isFailedCommand" in a and p for a, p in (BranchFacts(l, kill="assign").at_node(hf[0]) or frozenset())):
-            found = cfg.path_exists(l, cfg.pos_of(l, comp[0]), lambda p, e, hp=cfg.pos_of(l, hf[0]): p == hp) is None
-            # on the failed branch the report dominates the completion
+        if hf and comp and l.params:
+            rv0 = l.params[-1]["n"]
+            hfp0 = set(cfg.pos_of(l, c) for c in hf)
+            cps0 = set(cfg.pos_of(l, c) for c in comp)
+            # with a failed result, complete() is not reachable without passing the report (whatever else the condition mentions)
+            found = cfg.reach_under(l, {"%s.isFailedCommand()" % rv0: True}, lambda p, e: p in cps0, lambda p, e: p in hfp0) is None
             if found:
                 break
     r.check(found, "CommandTask|failure-reported-before-complete", "", "a failed command completes without hadCommandFailure", ct)
+    # ... and so does a command that ended `cancelled` while the build itself was not being cancelled (its process was killed from outside —
+    # the out-of-memory killer, `kill -9`): it did not do its work, its consumers are skipped, and build() answers from the failure count alone
+    killed = None
+    for l in prog.lambdas_of(ct):
+        comp = l.calls("TaskInterface::complete")
+        if not comp or not l.params:
+            continue
+        rv = l.params[-1]["n"]
+        tiname = "ti"
+        hfp = set(cfg.pos_of(l, c) for c in l.calls("hadCommandFailure"))
+        cps = set(cfg.pos_of(l, c) for c in comp)
+        env = {"%s.isFailedCommand()" % rv: False, "%s.isCancelledCommand()" % rv: True, "%s.isCancelled()" % tiname: False,
+               "%s.isSuccessfulCommand()" % rv: False, "%s.isSkippedCommand()" % rv: False, "%s.isPropagatedFailureCommand()" % rv: False}
+        w = cfg.reach_under(l, env, lambda p, e: p in cps, lambda p, e: p in hfp)
+        killed = (l, w, comp[0])
+        # the same walk must find the report for a plain failure: otherwise the environment's spelling does not match this lambda
+        env_f = dict(env); env_f["%s.isFailedCommand()" % rv] = True; env_f["%s.isCancelledCommand()" % rv] = False
+        if cfg.reach_under(l, env_f, lambda p, e: p in cps, lambda p, e: p in hfp) is not None:
+            killed = None
+            continue
+        break
+    if killed is None and found:
+        raise AnalysisBroken("CommandTask::inputsAvailable: completion lambda with complete()/hadCommandFailure() not recognised")
+    if killed is None:
+        killed = (ct, [0], None)      # nothing is reported at all (already a violation above): the killed command is not reported either
+    r.check(killed[1] is None, "CommandTask|killed-command-reported", "", "a command whose process ended `cancelled` while the build was not cancelled completes without "
+            "hadCommandFailure: its consumers are skipped and the build is declared successful", killed[0], killed[2])
     # the frontend counts the failure, resets the count only when a build starts, and both build() flavours answer from the counts
     FE = "lib/BuildSystem/BuildSystemFrontend.cpp"
     hcf = [f for f in prog.functions.values() if relpath(f.file) == FE and f.name.endswith("BuildSystemFrontendDelegate::hadCommandFailure")]
@@ -333,6 +366,10 @@ VARIANTS = [
          new="    if (value.isMissingInput())\n      return false;\n\n    // The produced node result itself doesn't need any synchronization.\n    return true;",
          expect=("R-VALID-REJECTS", "ProducedNodeTask")),
     dict(name="failure-not-counted", file="lib/BuildSystem/BuildSystem.cpp",
-         old="        if (result.isFailedCommand()) {\n          getBuildSystem(ti).getDelegate().hadCommandFailure();\n        }\n        ti.complete(result.toData());", new="        ti.complete(result.toData());",
+         old="        if (result.isFailedCommand() ||\n            (result.isCancelledCommand() && !ti.isCancelled())) {\n          getBuildSystem(ti).getDelegate().hadCommandFailure();\n        }\n        ti.complete(result.toData());", new="        ti.complete(result.toData());",
          expect=("R-FAIL-REPORT", "CommandTask")),
+    dict(name="killed-command-not-counted", file="lib/BuildSystem/BuildSystem.cpp", old="        if (result.isFailedCommand() ||\n            (result.isCancelledCommand() && !ti.isCancelled())) {", new="        if (result.isFailedCommand()) {",
+         expect=("R-FAIL-REPORT", "killed-command-reported")),
+    dict(name="benign-failure-report-as-two-ifs", file="lib/BuildSystem/BuildSystem.cpp", old="        if (result.isFailedCommand() ||\n            (result.isCancelledCommand() && !ti.isCancelled())) {\n          getBuildSystem(ti).getDelegate().hadCommandFailure();\n        }",
+         new="        const bool killed = result.isCancelledCommand() && !ti.isCancelled();\n        if (result.isFailedCommand()) {\n          getBuildSystem(ti).getDelegate().hadCommandFailure();\n        } else if (killed) {\n          getBuildSystem(ti).getDelegate().hadCommandFailure();\n        }", expect=None),
 ]
